@@ -18,7 +18,8 @@ From Coq Require Import ZArith List Bool.
 Import ListNotations.
 Local Open Scope Z_scope.
 
-Record tmr := mkT { t_exp : Z; t_id : Z; t_data : Z }.
+Record tmr := mkT { t_exp : Z; t_id : Z; t_data : Z;
+                     t_add : Z; t_dur : Z (* ghost: clock when the timer was created, duration asked *) }.
 Record tl := mkTL { ents : list tmr; hpos : Z -> Z }.
 
 Definition SIZE_MAX : Z := 18446744073709551615.          (* ~(size_t)0 *)
@@ -215,7 +216,7 @@ Definition hstep (s : hstate) (o : hop) : hstate :=
   if hs_err s then s else
   match o with
   | HAdd e =>
-    match heap_add (hs_tl s) (mkT e (hs_next s) 0) with
+    match heap_add (hs_tl s) (mkT e (hs_next s) 0 0 0) with
     | Some h' => mkHS h' (hs_next s + 1) (hs_fired s) false
     | None => mkHS (hs_tl s) (hs_next s) (hs_fired s) true
     end
